@@ -180,9 +180,17 @@ def ssa_toplevel(fnode):
         params.add(f.args.kwarg.arg)
     top = {}
     bad_for = set()
+    def tuple_names(st):
+        """x, y = value at the top level: the Name nodes bound"""
+        if isinstance(st, ast.Assign) and len(st.targets) == 1 and isinstance(st.targets[0], (ast.Tuple, ast.List)) and \
+                all(isinstance(e, ast.Name) for e in st.targets[0].elts) and len({e.id for e in st.targets[0].elts}) == len(st.targets[0].elts):
+            return list(st.targets[0].elts)
+        return []
     for st in f.body:
         if isinstance(st, ast.Assign) and len(st.targets) == 1 and isinstance(st.targets[0], ast.Name):
             top[st.targets[0].id] = top.get(st.targets[0].id, 0) + 1
+        for e in tuple_names(st):
+            top[e.id] = top.get(e.id, 0) + 1
         if isinstance(st, ast.For) and isinstance(st.target, ast.Name) and not st.orelse:
             top[st.target.id] = top.get(st.target.id, 0) + 1
             # a loop over nothing leaves the previous binding in place: only a variable that is not read after the loop qualifies
@@ -216,6 +224,12 @@ def ssa_toplevel(fnode):
             nm = st.targets[0].id
             version[nm] = version.get(nm, 0) + 1
             st.targets[0] = ast.copy_location(ast.Name(id="%s__%d" % (nm, version[nm]), ctx=ast.Store()), st.targets[0])
+        elif tuple_names(st) and any(e.id in cands for e in st.targets[0].elts):
+            st.value = R().visit(st.value)
+            for j, e in enumerate(st.targets[0].elts):
+                if e.id in cands:
+                    version[e.id] = version.get(e.id, 0) + 1
+                    st.targets[0].elts[j] = ast.copy_location(ast.Name(id="%s__%d" % (e.id, version[e.id]), ctx=ast.Store()), e)
         elif isinstance(st, ast.For) and isinstance(st.target, ast.Name) and not st.orelse and st.target.id in cands:
             st.iter = R().visit(st.iter)
             nm = st.target.id
@@ -228,8 +242,73 @@ def ssa_toplevel(fnode):
     return f
 
 
+def scalarise_small_lists(fnode):
+    """a local bound once to a list display of fixed length and used only through constant subscripts (read, assigned, augmented) is a
+    bundle of scalars: `box = [1, n]; box[0] = max(box[0], x)`  ==  `box_0 = 1; box_1 = n; box_0 = max(box_0, x)`.  The list must not
+    escape: any other use of the name (passed on, iterated, returned, captured by a nested function) disables the rewriting."""
+    f = copy.deepcopy(fnode)
+    defs = {}
+    for st in f.body:
+        if isinstance(st, ast.Assign) and len(st.targets) == 1 and isinstance(st.targets[0], ast.Name) and isinstance(st.value, ast.List) and \
+                1 <= len(st.value.elts) <= 4 and not any(isinstance(e, ast.Starred) for e in st.value.elts):
+            defs.setdefault(st.targets[0].id, []).append(st)
+    cands = {n: d[0] for n, d in defs.items() if len(d) == 1}
+    if not cands:
+        return fnode
+    stores = {}
+    for n in ast.walk(f):
+        if isinstance(n, ast.Name) and isinstance(n.ctx, (ast.Store, ast.Del)):
+            stores[n.id] = stores.get(n.id, 0) + 1
+    params = {a.arg for a in f.args.posonlyargs + f.args.args + f.args.kwonlyargs}
+    ok_uses = set()
+    for n in ast.walk(f):
+        if isinstance(n, ast.Subscript) and isinstance(n.value, ast.Name) and n.value.id in cands:
+            k = n.slice
+            if isinstance(k, ast.Constant) and isinstance(k.value, int) and not isinstance(k.value, bool) and \
+                    0 <= k.value < len(cands[n.value.id].value.elts):
+                ok_uses.add(id(n.value))
+    for n in ast.walk(f):
+        if isinstance(n, ast.Name) and n.id in cands:
+            if isinstance(n.ctx, ast.Store):
+                if stores.get(n.id, 0) != 1 or n.id in params:
+                    cands.pop(n.id, None)
+            elif id(n) not in ok_uses:
+                cands.pop(n.id, None)
+    for n in ast.walk(f):
+        if isinstance(n, (ast.FunctionDef, ast.AsyncFunctionDef, ast.Lambda, ast.ClassDef)) and n is not f:
+            for x in ast.walk(n):
+                if isinstance(x, ast.Name):
+                    cands.pop(x.id, None)
+    # the elements must not read the list itself, and the definition must come before every use (top level, straight line)
+    for nm, st in list(cands.items()):
+        idx = f.body.index(st)
+        for earlier in f.body[:idx]:
+            if any(isinstance(x, ast.Name) and x.id == nm for x in ast.walk(earlier)):
+                cands.pop(nm, None)
+    if not cands:
+        return fnode
+
+    class R(ast.NodeTransformer):
+        def visit_Subscript(self, n):
+            if isinstance(n.value, ast.Name) and n.value.id in cands and isinstance(n.slice, ast.Constant):
+                return ast.copy_location(ast.Name(id="%s__e%d" % (n.value.id, n.slice.value), ctx=n.ctx), n)
+            return self.generic_visit(n)
+    out = []
+    for st in f.body:
+        if any(st is d for d in cands.values()):
+            nm = st.targets[0].id
+            for i, e in enumerate(st.value.elts):
+                out.append(ast.copy_location(ast.Assign(targets=[ast.Name(id="%s__e%d" % (nm, i), ctx=ast.Store())], value=e), st))
+        else:
+            out.append(R().visit(st))
+    f.body = out
+    ast.fix_missing_locations(f)
+    return f
+
+
 class Normaliser:
     def __init__(self, fnode, module_helpers=None):
+        fnode = scalarise_small_lists(fnode)
         fnode = ssa_toplevel(fnode)
         self.f = fnode
         self.counter = 0
@@ -552,6 +631,26 @@ class Normaliser:
                     n.slice = mark(n.slice)
                 return n
 
+            def visit_BinOp(self, n):
+                # integer arithmetic anywhere, when an integer constant, a product or a negation inside the +/-/* tree shows that the
+                # operands are numbers (`size - (first - 1)` = `size - first + 1`); a difference alone could be one of sets
+                ar = _Arith()
+                if isinstance(n.op, (ast.Add, ast.Sub, ast.Mult)) and ar._arith(n) and any(
+                        (isinstance(x, ast.Constant) and isinstance(x.value, int) and not isinstance(x.value, bool)) or
+                        (isinstance(x, ast.BinOp) and isinstance(x.op, ast.Mult)) or
+                        (isinstance(x, ast.UnaryOp) and isinstance(x.op, ast.USub)) for x in ast.walk(n)) and \
+                        any(isinstance(x, ast.BinOp) and isinstance(x.op, (ast.Add, ast.Sub)) for x in ast.walk(n)):
+                    def leaves(x):
+                        if isinstance(x, ast.BinOp) and isinstance(x.op, (ast.Add, ast.Sub, ast.Mult)):
+                            x.left, x.right = leaves(x.left), leaves(x.right)
+                            return x
+                        if isinstance(x, ast.UnaryOp) and isinstance(x.op, (ast.USub, ast.UAdd)):
+                            x.operand = leaves(x.operand)
+                            return x
+                        return self.visit(x)
+                    return mark(leaves(n))
+                return self.generic_visit(n)
+
             def visit_ListComp(self, n):
                 self.generic_visit(n)
                 if len(n.generators) == 1 and not n.generators[0].ifs and isinstance(n.elt, ast.Name) and \
@@ -744,7 +843,7 @@ class Normaliser:
             # pure temporaries disappear
             if isinstance(s, ast.Assign) and len(s.targets) == 1 and isinstance(s.targets[0], ast.Name):
                 name = s.targets[0].id
-                if self._is_temp(name, s.value):
+                if self._is_temp(name, s.value, rest):
                     v = copy.deepcopy(s.value)
                     v = _Sub({k: x for k, x in env.items() if isinstance(x, ast.AST)}).visit(v)
                     env[name] = v
@@ -821,7 +920,36 @@ class Normaliser:
             return c == 0 or (c == 1 and name in self.top_rebound)
         return c <= 1
 
-    def _is_temp(self, name, value):
+    def _flow_ok(self, name, read, rest):
+        """``read`` is bound more than once, but not between the definition of the temporary ``name`` and its last use: every use of
+        ``name`` lies in the statements ``rest`` that follow the definition in the same block, and none of them, up to the last one that
+        uses it, binds ``read``"""
+        if read in self.params and self.assign_count.get(read, 0) == 0:
+            return False
+        total = sum(1 for n in _walk_no_defs(self.f) if isinstance(n, ast.Name) and n.id == name and isinstance(n.ctx, ast.Load))
+        if any(isinstance(n, ast.Name) and n.id == name for d in ast.walk(self.f)
+               if isinstance(d, (ast.FunctionDef, ast.Lambda, ast.AsyncFunctionDef)) and d is not self.f for n in ast.walk(d)):
+            return False
+        last = -1
+        inside = 0
+        for j, st in enumerate(rest):
+            c = sum(1 for n in ast.walk(st) if isinstance(n, ast.Name) and n.id == name and isinstance(n.ctx, ast.Load))
+            if c:
+                last = j
+                inside += c
+        if inside != total or last < 0:
+            return False
+        for st in rest[:last + 1]:
+            for n in ast.walk(st):
+                if isinstance(n, ast.Name) and n.id == read and isinstance(n.ctx, (ast.Store, ast.Del)):
+                    return False
+                if isinstance(n, (ast.While, ast.For)) and any(isinstance(x, ast.Name) and x.id == name for x in ast.walk(n)):
+                    # a use inside a loop that follows: a binding of `read` later in that loop would reach the next iteration
+                    if any(isinstance(x, ast.Name) and x.id == read and isinstance(x.ctx, (ast.Store, ast.Del)) for x in ast.walk(n)):
+                        return False
+        return True
+
+    def _is_temp(self, name, value, rest=None):
         """a local bound once to a side-effect free expression that gives the same value wherever it is evaluated later"""
         if name in self.params or name in self.declared_global or self.assign_count.get(name, 0) != 1:
             return False          # (bound more than once: kept as an assignment)
@@ -860,7 +988,9 @@ class Normaliser:
             if isinstance(n, ast.Name) and isinstance(n.ctx, ast.Load) and n.id != name:
                 if not self.bound_once(n.id) and not (n.id in self.loop_stack and self.loop_bound.get(n.id, 0) == self.assign_count.get(n.id, 0)
                                                       and n.id not in self.params):
-                    return False          # (a variable bound only by `for` statements is fixed inside the loop that binds it)
+                    # (a variable bound only by `for` statements is fixed inside the loop that binds it)
+                    if rest is None or not self._flow_ok(name, n.id, rest):
+                        return False
                 if n.id in state_read and n.id in self.mutated and n.id not in self.groups:
                     return False
         return True
